@@ -2,6 +2,7 @@ import Op2Proofs.SliceNesting
 import Op2Proofs.SysLemmas
 import Op2Proofs.SysContent
 import Op2Proofs.SysGood
+import Op2Proofs.SysEquiv
 import Op2Model.Vol
 import Op2Model.Clm
 /-!
@@ -187,6 +188,34 @@ example : let h : List (Nat × OOp) := [(0, .derive (.slice 2 5)), (1, .op (.rea
     ((Sys.run [Rd.file { data := [10, 11, 12, 13, 14, 15, 16, 17], pos := 0 }] h).2.map fun o => (o.content, o.pos)) =
       [([10, 11, 12, 13, 14, 15, 16, 17], 0), ([12, 13, 14, 15, 16], 4), ([13, 14, 15], 3), ([10, 11, 12, 13, 14, 15, 16, 17], 0)] := by
   decide
+
+/-! ## refinement of whole systems to abstract readers, and backend equivalence of whole systems -/
+
+/-- on every backend, every request except copy construction answers and moves exactly as the ℕ specification `specOStep` says
+    of what the object exposes and where its cursor is (`Rd.abs`) — slice creation included: same success condition, same window -/
+theorem C13_request_refines_spec (r : Rd) (o : OOp) (hr : r.Good) (hn : r.NoFss) (ho : o.argOk) (hc : o.noCopy) :
+    ((r.ostep o).1.abs, (r.ostep o).2.abs) = specOStep r.abs o := (Rd.ostep_refines r o hr hn ho hc).1
+
+/-- a system of well-formed objects of any mix of backends answers every interleaved history as the list of abstract readers does -/
+theorem C13_system_refines_spec (h : List (Nat × OOp)) (objs : Sys) (hok : Sys.Ok objs) (ha : ∀ p ∈ h, p.2.argOk ∧ p.2.noCopy) :
+    ((Sys.run objs h).1.map (fun p => (p.1, p.2.map OOut.abs)), (Sys.run objs h).2.map Rd.abs) = SSys.run (objs.map Rd.abs) h :=
+  Sys.run_refines h objs hok ha
+
+/-- **identical observations in memory and in a file, for whole systems**: the same interleaved history — with every slice, slice of
+    a slice and cursor slice it creates — on a memory reader and on a file reader over the same bytes gives the same answers, and
+    corresponding objects expose the same bytes at the same positions.  (Copy construction is excluded: a copied file reader reopens
+    at position 0, a copied memory reader keeps its position — `Rd.derive`, compared with the C++ by the `multi` runs.) -/
+theorem C13_system_backend_equivalence (data : Bytes) (hd : data.length < W64) (h : List (Nat × OOp))
+    (ha : ∀ p ∈ h, p.2.argOk ∧ p.2.noCopy) :
+    let m := Sys.run [Rd.mem { data := data, pos := 0 }] h
+    let f := Sys.run [Rd.file { data := data, pos := 0 }] h
+    m.1.map (fun p => (p.1, p.2.map OOut.abs)) = f.1.map (fun p => (p.1, p.2.map OOut.abs)) ∧
+    m.2.map Rd.abs = f.2.map Rd.abs := Sys.backend_equivalence data hd h ha
+
+/-- the exclusion is real: after reading one byte, a copy of a file reader is at 0 and a copy of a memory reader at 1 -/
+example : (((Sys.run [Rd.mem { data := [7, 8, 9], pos := 0 }] [(0, .op (.read 1)), (0, .derive .copy)]).2.map Rd.pos),
+           ((Sys.run [Rd.file { data := [7, 8, 9], pos := 0 }] [(0, .op (.read 1)), (0, .derive .copy)]).2.map Rd.pos)) =
+          ([1, 1], [1, 0]) := by decide
 
 /-! ## archive member streams are such slices
 
